@@ -363,7 +363,6 @@ def mux_model(n):
             dlcs=ConcDict(IntRange(2, 61), DLC_T, n),
             acceptor=Opt(Callback('acceptor', effect=acceptor_effect)),
             open_pn=Opt(PN),
-            open_result=Opt(Inst('ghost:Future#o')),
         ),
         methods={'send_frame': Callback('send_frame', effect=sm_send), 'emit': Callback('emit', effect=mux_emit)},
     )
